@@ -149,4 +149,16 @@ def run(ctx):
 
 
 def search(ctx):
-    pass
+    """a proof obligation or the correspondence no longer checks: look for a failing input on the real code with a wider net"""
+    rng = ctx.rng
+    from c17 import refec_curve
+    props = []
+    for name in NAMED:
+        n = refec_curve(ctx, name)["n"]
+        for h in HASHES:
+            for d, k in [(rng.randrange(1, n), rng.randrange(1, n)), (1, n - 1), (n - 1, 1), (rng.randrange(1, n), 2)]:
+                props.append(f"prop.c18sv {name} {d} {h} {hx(g.rbytes(rng, rng.choice([0, 3, 40])))} {k} 0")
+        props.append(f"prop.c18tamper {name} {rng.randrange(1, n)} {rng.choice(HASHES)} {hx(g.rbytes(rng, 12))} {rng.randrange(1, n)} 4 {rng.randrange(4)}")
+        for h in rng.sample(HASHES, 2):
+            props.append(f"prop.c18range {name} {rng.randrange(1, n)} {h} {hx(g.rbytes(rng, 12))}")
+    ctx.check_props(props, "search.c18")
